@@ -4,7 +4,8 @@ from harness.props import c01
 
 ID = 'C13'
 MODULE = 'Gpv.Props.C13'
-THEOREMS = core.theorems('C13')
+MODULES = ['Gpv.Props.C13', 'Gpv.Props.C13Stage']
+THEOREMS = core.theorems('C13', 'C13Stage')
 RULE = ('pipe_info() is read at every hand-over during partial, complete, early-terminated (close) and repeated consumption (a second '
         'stream of the same stage started with the counters the first one left), serial and parallel, with dropped Nones and forced '
         'schedules; oracle: yielded = values handed over so far, processed = elements whose result was taken (the current one '
